@@ -582,7 +582,9 @@ pub fn run(ctx: &Ctx) -> i32 {
                 let g0 = mk(shape, &massive, &vec![1.0; ne], ext, 4);
                 let pre = precompute(&g0);
                 let nt = nontrivial_c03(&g0, &pre);
-                for &d in &sc.dims {
+                // D = 1..6 everywhere; graphs with one or two edges also in D = 7..11
+                let dims: Vec<usize> = if ne <= 2 { (1..=11).collect() } else { sc.dims.clone() };
+                for &d in &dims {
                     let mut wlist = was.clone();
                     if sc.add_big_weight {
                         // an extreme weight hierarchy (ratio 2^60): tiny but positive, finite weights are legal
